@@ -453,6 +453,7 @@ class FilterVariantsOrder(Contract):
     them on sorted by their own order: the list it returns is sorted after its last modification, so downstream code that assumes sorted
     input (merging adjacent variants, graph construction) sees the same sequence in every process"""
     path, qualname, props = VRP, 'VariantRecordPool.filter_variants', ('C06',)
+    pool_cls = 'VariantRecordPool'
     declared_raises = ['ValueError']
     assumptions = ('havoc: which records pass the position filter; list.sort() orders records by location (VariantRecord ordering)',)
 
@@ -466,7 +467,7 @@ class FilterVariantsOrder(Contract):
         series = SymObj('Series06f', transcriptional=FnView(e.int('n_transcriptional'), rec('tx'), tag='transcriptional'), intronic=FnView(e.int('n_intronic'), rec('intron'), tag='intronic'))
         anno = SymObj('Anno06f', genes=types.SimpleNamespace(sym_getitem=lambda I2, key: SymObj('Gene06f', transcripts=FnView(ntx, lambda i: SymObj('TxId06f', i=zz(i)), tag='gene transcripts'))),
                       transcripts=types.SimpleNamespace(sym_getitem=lambda I2, key: SymObj('TxModel06f', transcript=SymObj('Tx06f', gene_id=SymObj('GeneId06f')))))
-        st.pool = SymObj('VariantRecordPool', anno=anno, _series=series)
+        st.pool = SymObj(self.pool_cls, anno=anno, _series=series, pointers=types.SimpleNamespace(sym_contains=lambda I2, key: I2.e.bool('transcript_has_variants')))
         st.args = [st.pool]
         st.kwargs = dict(gene_id=SymObj('GeneId06f') if e.branch(e.bool('gene_given'), 'gene') else None,
                          tx_ids=FnView(e.int('n_given_tx'), lambda i: SymObj('TxId06f', i=zz(i)), tag='tx_ids') if e.branch(e.bool('tx_ids_given'), 'tx ids') else None,
@@ -483,8 +484,8 @@ class FilterVariantsOrder(Contract):
         def inst(reg):
             reg.set_hooks.append(lambda v: (lambda I, v: _RecSet(c, v)) if isinstance(v, FnView) and v.tag == 'tx_ids' else None)
             reg.empty_set_hook = lambda I: _RecSet(c)
-            reg.protocol_('VariantRecordPool', '__contains__', lambda I, o, key: I.e.bool('transcript_has_variants'))
-            reg.protocol_('VariantRecordPool', '__getitem__', lambda I, o, key: o.fields['_series'])
+            reg.protocol_(c.pool_cls, '__contains__', lambda I, o, key: I.e.bool('transcript_has_variants'))
+            reg.protocol_(c.pool_cls, '__getitem__', lambda I, o, key: o.fields['_series'])
             reg.method_('Anno06f', 'variant_coordinates_to_gene', lambda I, o, a, k: SymObj('VariantRecord', type=a[0].fields['type'], location=SymObj('Loc06', start=I.e.int('g_start'), end=I.e.int('g_end')), _gene_of=a[0]))
             reg.method_('VariantRecord', 'is_merged_mnv', lambda I, o, a, k: I.e.bool('merged_mnv'))
 
@@ -505,6 +506,13 @@ class FilterVariantsOrder(Contract):
 
     def post_return(self, I, st, ret):
         I.e.prove('C06/filter_variants/returned-list-sorted-after-its-last-modification', isinstance(ret, _RecList) and ret.sorted)
+
+
+@register
+class FilterVariantsOrderOnDisk(FilterVariantsOrder):
+    """the same for the on-disk pool callVariant works with"""
+    path, qualname = 'moPepGen/seqvar/VariantRecordPoolOnDisk.py', 'VariantRecordPoolOnDisk.filter_variants'
+    pool_cls = 'VariantRecordPoolOnDisk'
 
 
 # ----------------------------------------------------------------------------
